@@ -81,3 +81,16 @@ Theorem c09_redeem_fallbacks : forall now expire pc pe,
   l_expires (redeem_fallbacks now expire pc pe) = Some (match pe with Some e => e | None => now + expire end).
 Proof. exact redeem_fallbacks_spec. Qed.
 Print Assumptions c09_redeem_fallbacks.
+
+(* ---- the server-side entry gets its lifetime in the SAME command that writes it ---- *)
+From V.Lib Require Import Bytes.
+From V.Gen Require Wiring.
+
+(* Both Redis client wrappers, REGENERATED from pkg/sessions/redis/client.go on this run, store an entry with ONE Set call
+   that carries the expiration (c09_store_ttl is about that argument): there is no window in which the entry exists without
+   its lifetime, whatever happens to the connection afterwards. *)
+Theorem c09_store_write_carries_lifetime :
+  In (s "*client.Set: return c.Client.Set(ctx, key, value, expiration).Err()") Wiring.redis_client_methods /\
+  In (s "*clusterClient.Set: return c.ClusterClient.Set(ctx, key, value, expiration).Err()") Wiring.redis_client_methods.
+Proof. split; vm_compute; tauto. Qed.
+Print Assumptions c09_store_write_carries_lifetime.
